@@ -41,6 +41,15 @@ def sanitizeStr (s : String) : String := String.ofList (sanitize s.toList)
 /-- `x.split(sep)[0]` -/
 def firstPart (sep : Char) (s : List Char) : List Char := s.takeWhile (fun c => c != sep)
 
+/-- `x.split(sep)[-1]` -/
+def lastPart (sep : Char) (s : List Char) : List Char := (s.reverse.takeWhile (fun c => c != sep)).reverse
+
+/-- taurex/cia/cia.py: `CIA.pairOne` / `CIA.pairTwo` — the collision partners `pairName.split('-')[0]` / `[-1]` of the pair name
+    the object reports NOW (for a HITRAN file: the name read from the block headers while loading, not the placeholder the
+    base class was constructed with) -/
+def pairOne (pair : List Char) : List Char := firstPart '-' pair
+def pairTwo (pair : List Char) : List Char := lastPart '-' pair
+
 /-- `pathlib.Path(name).stem` (Python 3.12) for a bare file name: `i = name.rfind('.')`,
     `name[:i] if 0 < i < len(name)-1 else name` -/
 def stem (name : List Char) : List Char :=
